@@ -24,7 +24,7 @@ pub fn def() -> CheckDef {
         },
         gen,
         run,
-        rule: "one case = one valid base image (drawn history through the library, or a drawn layout by the independent writer; the first case of a run is a V3 file with > 109 FAT sectors so that DIFAT-sector deviations apply) and (b) the ENUMERATION of every documented tolerated deviation at every applicable place (zero-padded FAT tail; zero-padded DIFAT tail; each FAT / DIFAT sector not marked; DIFAT chain ended by FREESECT; every parent/child pair red-red; every name unterminated; wrong root name; CLSID / creation / modification time on every stream; start sector / size on every storage; FAT / DIFAT / MiniFAT sector counts off by one; non-zero directory-sector count in V3; MiniFAT longer than the mini stream), singly and in drawn combinations of 2-3: permissive open must accept with the SAME logical dump as the undamaged base and strict open must reject - through open_with on the simulated disk for every image, and through the path-based constructors OpenOptions::[strict().]open(path) / open_rw(path) on a real scratch file for the first image of every recipe and every 8th combination; (a) for the whole corpus - base, deviated images, a sample of C05's damaged images, and (cases 1..300 in quick) 40 small foreign layouts each from the independent writer - whenever open_strict accepts, open accepts too and both dumps are identical. sub_runs = images judged. Non-trivial: >= 1 deviation applied; distinct = distinct image hashes.",
+        rule: "one case = one valid base image (drawn history through the library, or a drawn layout by the independent writer; the first case of a run is a V3 file with > 109 FAT sectors so that DIFAT-sector deviations apply) and (b) the ENUMERATION of every documented tolerated deviation at every applicable place (zero-padded FAT tail; zero-padded DIFAT tail; each FAT / DIFAT sector not marked; DIFAT chain ended by FREESECT; every parent/child pair red-red; every name unterminated; wrong root name; CLSID / creation / modification time on every stream; start sector / size on every storage; FAT / DIFAT / MiniFAT sector counts off by one; non-zero directory-sector count in V3; MiniFAT longer than the mini stream), singly and in drawn combinations of 2-3: permissive open must accept with the SAME logical dump as the undamaged base and strict open must reject - through open_with on the simulated disk for every image, and through the path-based constructors OpenOptions::[strict().]open(path) / open_rw(path) on a real scratch file for the first image of every recipe and every 8th combination; (a) for the whole corpus - base, deviated images, a sample of C05's damaged images, and (cases 1..300 in quick) 40 small foreign layouts each from the independent writer - whenever open_strict accepts, open accepts too and both dumps are identical. sub_runs = images judged. Non-trivial: >= 1 deviation applied; distinct = distinct image hashes. Every pair of recipes (one representative place per recipe and variant) is judged too; near-miss root names (other letter case, one unit short or long) and header counts that are too small or zero are among the variants.",
         assumptions: &["the base image must itself pass open_strict; otherwise the case is skipped and counted (that is C02/C03/C04's subject)"],
         cpu_limit_s: 1200,
         fault_kinds: "F-FC deviation recipes (enumerated at every place, and combined), plus a sample of C05 damage for clause (a)",
